@@ -8,6 +8,12 @@ def R(pkg, run, quick, thorough, **kw):
 LAB = "./internal/zzverif/lab"
 
 CHECKS = {
+    "C13": {
+        "runs": [
+            R(LAB, "^TestC13Accounting", {"checks": 400, "timeout": 600}, {"checks": 1500, "shards": 12, "timeout": 2400}, race=True),
+            R("./conntrack", "^TestC13Conntrack", {"checks": 1500, "timeout": 600}, {"checks": 20000, "shards": 4, "timeout": 2400}, race=True),
+        ],
+    },
     "C12": {
         "runs": [
             R(LAB, "^TestC12Faults", {"checks": 1200, "timeout": 600}, {"checks": 3000, "shards": 12, "timeout": 2400}),
@@ -72,6 +78,9 @@ CHECKS = {
 LEVELS = {"C12": "fault_enumeration"}  # default: exploration
 
 RULES = {
+    "C13": "(1) model-based history in the fault laboratory: rapid draws 1-4 batches of 1-5 steps; the steps of a batch run concurrently on their own connections; a step is a C12 exchange (any route / method / fault, with follow-up request) or a special path: client abort during upload, client abort during download (origin gated), Upgrade -> 101 tunnel, HTTP/1.0 CONNECT, connect-and-close, half a request head. After every batch the harness waits until each proxy has accepted every connection opened and listener_cx_active is 0, then gathers the four registries: every http_requests_in_flight{method} series is 0; "
+           "http_requests_total{method,code} grew by exactly the requests whose head was sent, with the code the client was sent (requests that saw no status line may land on any code); listener_cx_total grew by the connections opened; at the end, after closing idle upstream connections, dialer_cx_active is 0 and dialer_cx_total / dialer_errors_total equal the successful / failed dials of the dial log. "
+           "(2) conntrack.Builder unit property on loopback TCP: generated Write / ReadFrom / peer-write sequences, then 1-8 concurrent Close callers: OnClose exactly once, Tx/Rx equal the bytes moved, observer lookup works. Non-trivial = a history with >= 3 different paths incl. a fault or abort; >= 2 concurrent closers with OnClose. Distinct = distinct histories / op sequences.",
     "C12": "fault laboratory: scripted plain / TLS origins, a TLS origin with a certificate of an unknown CA, a peer answering the TLS hello in clear, a peer closing on the hello, an upstream HTTP proxy that rejects CONNECT with a code encoded in the target name, a refused port and a dialer wrapper that returns a time-out; proxies: direct, MITM, upstream, MITM+upstream, dead upstream. "
            "(1) rapid draws one exchange {route x method GET/POST/HEAD/CONNECT x fault from {none, refused, dial time-out, TLS garbage / EOF / bad certificate, upstream CONNECT rejection with 403/407/429/502/503 and a body, FIN or RST after k bytes of the reply (k = 0, inside the head, mid-body, one byte short), bad status line, corrupt chunk size, differing Content-Lengths} x reply status/framing/body size around 4 KiB and 32 KiB} plus a fault-free follow-up request on the same connection; "
            "(2) every cut offset k (FIN and RST) of a small Content-Length and a small chunked reply is enumerated (every 3rd offset on the direct route in quick, every offset on direct/MITM/upstream routes in thorough); "
@@ -115,6 +124,9 @@ RULES = {
 }
 
 ASSUMPTIONS = {
+    "C13": ["quiescence is established black-box: all harness sockets closed, every opened connection accepted, listener_cx_active = 0, then the registry is read once more (Gather is not atomic across families)",
+            "a request whose client saw no status line may be booked under any status code, but exactly once",
+            "shutdown is excluded (C11)"],
     "C12": ["a read-to-close reply that ends early is indistinguishable from a complete one, so body cuts are generated for Content-Length and chunked replies only",
             "exact status mapping is asserted for refused / unreachable (502), certificate and non-TLS peer (502), dial time-out (504), upstream CONNECT rejection (its status and body); other fault classes need any 5xx",
             "for hostile client input only survival (no crash, probes served) is claimed by the property; malformed answers to malformed input (e.g. 'HTTP/2.0 500' to an h2 preface) are counted, not judged",
@@ -155,6 +167,11 @@ ASSUMPTIONS = {
 # MANIFEST texts
 
 META = {
+    "C13": {
+        "technique": "model-based property testing (rapid): generated concurrent exchange histories with injected faults and aborts, invariant over the Prometheus registries at quiescent points; separate rapid property for conntrack with concurrent closers (race detector in thorough)",
+        "text": "The model knows how many connections were opened and which requests were sent with which outcome; after each batch the books of every proxy must balance exactly per method and status, all gauges must be zero and the dialer's totals must equal the dial log. 400 histories + 1500 conntrack cases quick; 18000 histories and 80000 conntrack cases under -race thorough.",
+        "note": "Interleavings inside the proxy are sampled by running batch steps concurrently; the Go scheduler is not controlled.",
+    },
     "C12": {
         "technique": "fault injection over generated and enumerated fault points (rapid + exhaustive cut offsets) with a strict independent response parser as oracle; generated and coverage-guided (native fuzz, thorough) hostile client streams with liveness probes",
         "text": "Every fault point of an upstream exchange that the harness can script (dial, TLS, CONNECT reply, every byte offset of a reply, FIN vs RST, malformed replies) is crossed with request kinds and routes; the client-visible outcome must be a mapped, well-formed error response or a truncated message followed by close, never a complete-looking short or foreign reply; hostile client bytes must not kill the process. 2000 cases quick; thorough: 36000 generated exchanges, every cut offset on three routes, 16000 hostile streams and a 2 min fuzz campaign.",
